@@ -155,6 +155,7 @@ def pmap_until(fn, items, is_failure, enough=8, chunk=48, jobs=JOBS):
 
 # ------------------------------------------------------------------------------------------------ comparing
 HANDLE_RE = re.compile(r"(~?)@(\d+)")
+QUERY_OPS = {"itec", "implies", "size", "desc", "satcount", "onesat", "paths", "bracket", "dot", "gc", "dump"}
 
 
 class Namer:
@@ -179,8 +180,8 @@ def canon_line(line, op, namer, alloc):
     if t[0] == "r" and len(t) == 5:
         core = "r %d %s" % (namer.name(int(t[1])), t[2])
         return core + (" %s %s" % (t[3], t[4]) if alloc else "")
-    if t[0] == "gc" and len(t) == 4:
-        return "gc %s" % t[3] + (" %s %s" % (t[1], t[2]) if alloc else "")
+    if t[0] == "gc" and len(t) >= 4:
+        return "gc %s %s" % (t[3], t[4] if len(t) > 4 else "") + (" %s %s" % (t[1], t[2]) if alloc else "")
     if t[0] == "q":
         if op == "bracket":
             return "q " + HANDLE_RE.sub(lambda m: "%s@%d" % (m.group(1), namer.name(int(m.group(2)))), line[2:])
@@ -192,7 +193,9 @@ def canon_line(line, op, namer, alloc):
             return "q dot lines=%d" % (line.count(" ; ") + 1)
         return line
     if t[0] == "dump":
-        return "dump" if not alloc else line.split(" cells=")[0]
+        # real_size and last_index are determined by which nodes exist; min_free and the cell numbers depend on the order
+        # in which equal sets of nodes were allocated, which is not part of any property
+        return "dump" if not alloc else " ".join(t[:3])
     return line
 
 
@@ -203,6 +206,7 @@ def compare_traces(hist_lines, a_lines, b_lines, alloc=False):
     if exact:
         return True, True, None
     na, nb = Namer(), Namer()
+    ra, rb = [], []            # node index held by each register (None = skipped / dead), per side
     n = max(len(a_lines), len(b_lines))
     for i in range(n):
         la = a_lines[i] if i < len(a_lines) else "<missing>"
@@ -212,6 +216,25 @@ def compare_traces(hist_lines, a_lines, b_lines, alloc=False):
         cb = canon_line(lb, op, nb, alloc)
         if ca != cb:
             return False, False, (i, op, la, lb)
+        if op not in QUERY_OPS:
+            for (l, regs) in ((la, ra), (lb, rb)):
+                t = l.split(" ")
+                regs.append(int(t[1]) if t[0] == "r" and len(t) == 5 else None)
+        elif op == "gc" and la.startswith("gc "):
+            # a collection frees node indices and later allocations reuse them: the names of dead nodes must not stick to the
+            # reused indices.  Forget every name and re-name the nodes of the surviving registers in register order.
+            for (l, regs, side) in ((la, ra, "a"), (lb, rb, "b")):
+                t = l.split(" ")
+                dead = [int(x) for x in t[4][2:].split(",") if x] if len(t) > 4 else []
+                for k in dead:
+                    if k < len(regs):
+                        regs[k] = None
+            na, nb = Namer(), Namer()
+            for k in range(max(len(ra), len(rb))):
+                if k < len(ra) and ra[k] is not None:
+                    na.name(ra[k])
+                if k < len(rb) and rb[k] is not None:
+                    nb.name(rb[k])
     return False, True, None
 
 
